@@ -285,6 +285,7 @@ func replay(args []string) {
 // ------------------------------------------------------------------ EM trajectories
 
 const scaleF = 1e6
+const maxIterations = 3000 // an EM run that is still iterating after this many hook calls is cut off and reported
 
 func sc(x float64) int {
 	if math.IsNaN(x) || math.IsInf(x, 0) || math.Abs(x) > 2000 {
@@ -489,12 +490,26 @@ func record(args []string) {
 				epsIdx = k
 			}
 		}
+		out.Put(vh.M{"kind": "journal", "scenario": s.name, "seed": rseed, "eps_index": epsIdx, "maxsteps": maxSteps})
+		out.Flush()
 		evs := []emev{{E: "begin", Epsilon: sc(epsilon), Maxsteps: maxSteps, Scenario: s.name, Seed: rseed, I: epsIdx}}
 		var final float64
 		var err error
-		msg := vh.Try(func() { final, err = s.run(rng, epsilon, maxSteps, func(e emev) { evs = append(evs, e) }) })
+		msg := vh.Try(func() {
+			final, err = s.run(rng, epsilon, maxSteps, func(e emev) {
+				evs = append(evs, e)
+				if len(evs) > maxIterations {
+					panic(fmt.Sprintf("no convergence after %d iterations (last lik %d eps %d)", maxIterations, e.Lik, e.Eps))
+				}
+			})
+		})
 		if msg != "" {
-			vh.Mismatch(out, vh.M{"engine": "estim", "what": "panic", "scenario": s.name},
+			what := "panic"
+			if len(evs) > maxIterations {
+				what = "no_convergence"
+				evs = append(evs[:8], evs[len(evs)-8:]...)
+			}
+			vh.Mismatch(out, vh.M{"engine": "estim", "what": what, "scenario": s.name},
 				vh.M{"mode": "em", "scenario": s.name, "seed": rseed, "eps_index": epsIdx, "maxsteps": maxSteps, "panic": msg})
 			evs = append(evs, emev{E: "return", Err: true})
 		} else {
@@ -507,6 +522,8 @@ func record(args []string) {
 			"events": len(evs), "first_event": trace.N - len(evs) + 1, "error": err != nil})
 		runs++
 		events += len(evs)
+		trace.Flush()
+		out.Flush()
 		if only != "" {
 			break
 		}
